@@ -123,12 +123,11 @@ theorem load_fuel_independent (w : World) (fuel g : Nat) (root : Loc) (r : Res)
 
 /-! ### (4) Completeness: every reference of the loaded graph has a value
 
-FULL STATEMENT (does not hold of the code, witnesses `w34`, `w49` below):
+FULL STATEMENT (does not hold of the code, witness `w34` below):
   load w fuel root = .ok s → every reference object reachable from the root positions has a value.
 What is proved: the same for runs in which `unvisitRef` was never called with a nil value (a pure `$ref` cycle, #34)
-and no `errMUST…` was swallowed — that of an empty target (the fragment `#`, #34), or that of a null member below
-the target (F-C02-49) — three counters of the model, reported by the driver as the classes DegenerateTarget /
-NullMemberSwallowed. -/
+and no `errMUST…` of an empty target was swallowed (the fragment `#`, #34) — two counters of the model, reported by the
+driver as the class DegenerateTarget. -/
 
 theorem load_ok_complete_partial (w : World) (fuel : Nat) (root : Loc) (s : St)
     (h : load w fuel root = .ok s) (hc : Clean s) :
@@ -178,43 +177,57 @@ theorem load_ok_no_dangling_partial (w : World) (hC : CopyOK w) (fuel : Nat) (ro
 
 /-! ### (5) One Loader, several loads: "the outcome of a load is a function of that load's input alone"
 
-FULL STATEMENT (does not hold of the code, witness `w50`): `loadEntry w fuel e s = loadEntry w fuel e {}`.
-What is proved: every entry point resets the in-progress set and the backtrack table (table `Gen.loaderEntries`,
-`every_entry_resets` in section (T)), so a load depends on the Loader's past ONLY through the documents cache and the
-objects in it; with an empty cache it is the load of a fresh Loader; and whatever the cache holds, the values
-recorded stay right. The remaining dependence — a cached document is not walked again — is the flag `stale`
-(class StaleDocumentCache, F-C02-50). -/
+Every entry point resets the in-progress set, the backtrack table and (c555d93) the documents cache
+(`every_entry_resets` in section (T), from the regenerated entry rows; the reset routine itself is pinned by its
+digest), and every document is read and decoded anew. So the statement holds at full strength: whatever the earlier
+loads on the Loader did — succeed, fail half-way, leave references in progress — a load is the load of a fresh Loader. -/
 
-/-- the in-progress set, the backtrack table and every counter of the previous loads are irrelevant -/
-theorem entry_depends_on_cache_only (w : World) (fuel : Nat) (e : Entry) (he : e.resets = true) (s s' : St)
-    (hd : s.docs = s'.docs) (hv : s.value = s'.value) : loadEntry w fuel e s = loadEntry w fuel e s' := by
+theorem entry_is_fresh_load (w : World) (fuel : Nat) (e : Entry) (he : e.resets = true) (s : St) :
+    loadEntry w fuel e s = loadEntry w fuel e {} := by
   unfold loadEntry
-  simp only [he, if_true, St.reset, hd, hv]
-
-/-- on a Loader whose cache is empty (e.g. after `LoadFromData` loads without external references, failed or not)
-    a load is the load of a fresh Loader, whatever was left in progress -/
-theorem entry_after_cacheless_history (w : World) (fuel : Nat) (e : Entry) (he : e.resets = true) (s : St)
-    (hd : s.docs = []) (hv : s.value = []) : loadEntry w fuel e s = loadEntry w fuel e {} :=
-  entry_depends_on_cache_only w fuel e he s {} hd hv
+  simp only [he, if_true, St.reset]
 
 theorem entry_fresh_is_load (w : World) (fuel : Nat) (root : Loc) : loadEntry w fuel ⟨root, true, true⟩ {} = load w fuel root := by
   simp [loadEntry, load, St.reset]
 
-/-- soundness along a history: whatever the earlier loads left in the cache (and however they ended), a load that
-    raises neither flag — and even when it FAILS — leaves only right values behind -/
+/-- every load of a history has the outcome of that load alone on a fresh Loader -/
+theorem history_loads_are_independent (w : World) (fuel : Nat) :
+    ∀ (es : List Entry) (s : St), (∀ e ∈ es, e.resets = true) → ∀ r ∈ loadSeq w fuel es s, ∃ e ∈ es, r = loadEntry w fuel e {}
+  | [], _, _, r, hr => by simp [loadSeq] at hr
+  | e :: es, s, he, r, hr => by
+    have h0 := entry_is_fresh_load w fuel e (he e (by simp)) s
+    unfold loadSeq at hr
+    cases hl : loadEntry w fuel e s with
+    | outOfFuel =>
+      simp only [hl, List.mem_singleton] at hr
+      exact ⟨e, by simp, by rw [hr, ← h0, hl]⟩
+    | ok s1 =>
+      simp only [hl, List.mem_cons] at hr
+      rcases hr with rfl | hr
+      · exact ⟨e, by simp, by rw [← h0, hl]⟩
+      · obtain ⟨e', he', hr'⟩ := history_loads_are_independent w fuel es _ (fun x hx => he x (by simp [hx])) r hr
+        exact ⟨e', by simp [he'], hr'⟩
+    | err k s1 =>
+      simp only [hl, List.mem_cons] at hr
+      rcases hr with rfl | hr
+      · exact ⟨e, by simp, by rw [← h0, hl]⟩
+      · obtain ⟨e', he', hr'⟩ := history_loads_are_independent w fuel es _ (fun x hx => he x (by simp [hx])) r hr
+        exact ⟨e', by simp [he'], hr'⟩
+
+/-- soundness also for the state a FAILED load leaves behind: a load that raises neither flag records only right values -/
 theorem entry_values_right_partial (w : World) (hC : CopyOK w) (fuel : Nat) (e : Entry) (he : e.resets = true) (s s' : St)
-    (hg : Good w s) (h : (loadEntry w fuel e s).st? = some s') (hf : s'.foreign = false) (ht : s'.tclash = false) :
+    (h : (loadEntry w fuel e s).st? = some s') (hf : s'.foreign = false) (ht : s'.tclash = false) :
     Good w s' := by
   unfold loadEntry at h
-  simp only [he, if_true] at h
-  have hi0 : Inv w s.reset := ⟨by simpa [Good, St.reset] using hg, by intro kt m hm; simp [St.reset] at hm⟩
+  simp only [he, if_true, St.reset] at h
+  have hi0 : Inv w ({} : St) := ⟨by intro o v hm; simp at hm, by intro kt m hm; simp at hm⟩
   by_cases hl : e.located = true
   · simp only [hl, if_true] at h
     split at h
     · simp only [Res.st?, Option.some.injEq] at h; subst h
-      simpa [Good, St.reset] using hg
+      intro o v hm; simp at hm
     · have := pres_foldRes w _ (fun k => resolve_pres w hC fuel e.root k) (w.roots e.root) _ s' h ⟨hf, ht⟩
-      exact (this.2 ⟨by simpa [Good] using hi0.1, by simpa [PendingOK] using hi0.2⟩).1
+      exact (this.2 ⟨by intro o v hm; simp at hm, by intro kt m hm; simp at hm⟩).1
   · simp only [hl, Bool.false_eq_true, if_false] at h
     have := pres_foldRes w _ (fun k => resolve_pres w hC fuel e.root k) (w.roots e.root) _ s' h ⟨hf, ht⟩
     exact (this.2 hi0).1
@@ -305,44 +318,6 @@ theorem w29_text_not_global : ¬ TextIsGlobal w29 := by
   have := h 0 4 ⟨.schema, some 7, [], 0, none, false⟩ ⟨.schema, some 7, [], 2, none, false⟩ 7 rfl rfl rfl rfl rfl
   simp [w29] at this
 
-/-- F-C02-49 (null member below an untyped target). Object 0: root schema A = {$ref 0} ("#/x-defs/S"); object 1: the
-    schema under `x-defs` (not a root position: untyped, never walked on its own), child 2; object 2: a null entry
-    of its `properties`. `errMUSTSchema` raised at 2 is swallowed by the routine resolving 0. -/
-def w49 : World where
-  nodes := [⟨.schema, some 0, [], 0, none, false⟩, ⟨.schema, none, [2], 0, none, false⟩, ⟨.schema, none, [], 0, none, true⟩]
-  roots := fun _ => [0]
-  docOf := fun _ _ => none
-  target := fun _ _ _ => some (0, 1)
-
-/-- the reference designates the schema, yet the document loads and the reference stays without value -/
-theorem w49_model_loads_unresolved :
-    (match load w49 20 0 with | .ok s => (s.get 0, s.nswallow != 0, s.foreign, s.tclash) | _ => (some 0, false, true, true))
-      = (none, true, false, false) := by decide
-theorem w49_spec : designates w49 5 0 = some 1 := by decide
-
-/-- F-C02-50 (the documents cache outlives a load). Contexts 0 = /r/a/root1.json, 1 = /r/a/x.json, 2 = /r/a/root2.json.
-    Objects: 0 root1 R = {$ref 0} ("x.json#/components/schemas/A"); x.json: 1 = A (child 3), 2 = B (no child);
-    3 = {$ref 1}, dangling; 4 root2 R = {$ref 2} ("x.json#/components/schemas/B").
-    Load 1 (root1) fails at 3 while x.json is being walked — and leaves x.json in the cache. Load 2 (root2) on the same
-    Loader takes x.json from the cache, never walks it and succeeds; on a fresh Loader it fails (the dangling
-    reference of x.json is reported): the outcome of a load depends on the loads before it. -/
-def w50 : World where
-  nodes := [⟨.schema, some 0, [], 0, none, false⟩, ⟨.schema, none, [3], 1, none, false⟩, ⟨.schema, none, [], 1, none, false⟩,
-            ⟨.schema, some 1, [], 1, none, false⟩, ⟨.schema, some 2, [], 2, none, false⟩]
-  roots := fun | 0 => [0] | 1 => [1, 2] | 2 => [4] | _ => []
-  docOf := fun _ t => if t = 1 then none else some 1
-  target := fun _ t _ => match t with
-    | 0 => some (1, 1)
-    | 1 => none
-    | _ => some (1, 2)
-
-theorem w50_history_changes_outcome :
-    ((loadSeq w50 20 [⟨0, true, true⟩, ⟨2, true, true⟩] {}).map
-        (fun r => match r with | .ok s => (1, s.stale) | .err _ _ => (2, false) | .outOfFuel => (3, false)))
-      = [(2, false), (1, true)]
-    ∧ (match load w50 20 2 with | .err _ _ => true | _ => false) = true := by decide
-theorem w50_spec : designates w50 5 3 = none := by decide
-
 /-- #34. Object 0 = {$ref 0} pointing at itself (object 1 is the resolver's local copy): loads, stays unresolved. -/
 def w34 : World where
   nodes := [⟨.schema, some 0, [], 0, none, false⟩, ⟨.schema, some 0, [], 0, some 0, false⟩]
@@ -407,6 +382,39 @@ def w48 : World where
 theorem w48_regression_load_fails : (match load w48 20 0 with | .err _ _ => true | _ => false) = true := by decide
 theorem w48_spec : designates w48 5 2 = none := by decide
 
+/-- F-C02-49 (fixed 3c3716e). Object 0: root schema A = {$ref 0} ("#/x-defs/S"); object 1: the schema under `x-defs`
+    (untyped, never walked on its own), child 2; object 2: a null entry of its `properties`. `errMUSTSchema` raised
+    at 2 is no longer swallowed by the routine resolving 0 (the copy is not empty): the document is rejected, as the
+    same null member is without a reference in between. -/
+def w49 : World where
+  nodes := [⟨.schema, some 0, [], 0, none, false⟩, ⟨.schema, none, [2], 0, none, false⟩, ⟨.schema, none, [], 0, none, true⟩]
+  roots := fun _ => [0]
+  docOf := fun _ _ => none
+  target := fun _ _ _ => some (0, 1)
+
+theorem w49_regression_load_fails : (match load w49 20 0 with | .err (some .schema) _ => true | _ => false) = true := by decide
+
+/-- F-C02-50 (fixed c555d93). Contexts 0 = /r/a/root1.json, 1 = /r/a/x.json, 2 = /r/a/root2.json.
+    Objects: 0 root1 R = {$ref 0} ("x.json#/components/schemas/A"); x.json: 1 = A (child 3), 2 = B (no child);
+    3 = {$ref 1}, dangling; 4 root2 R = {$ref 2} ("x.json#/components/schemas/B").
+    Load 1 (root1) fails at 3 while x.json is being walked. Load 2 (root2) on the same Loader reads and walks x.json
+    again and fails like on a fresh Loader: the dangling reference of x.json is reported. -/
+def w50 : World where
+  nodes := [⟨.schema, some 0, [], 0, none, false⟩, ⟨.schema, none, [3], 1, none, false⟩, ⟨.schema, none, [], 1, none, false⟩,
+            ⟨.schema, some 1, [], 1, none, false⟩, ⟨.schema, some 2, [], 2, none, false⟩]
+  roots := fun | 0 => [0] | 1 => [1, 2] | 2 => [4] | _ => []
+  docOf := fun _ t => if t = 1 then none else some 1
+  target := fun _ t _ => match t with
+    | 0 => some (1, 1)
+    | 1 => none
+    | _ => some (1, 2)
+
+theorem w50_regression_history_independent :
+    ((loadSeq w50 20 [⟨0, true, true⟩, ⟨2, true, true⟩] {}).map
+        (fun r => match r with | .ok _ => 1 | .err _ _ => 2 | .outOfFuel => 3)) = [2, 2]
+    ∧ (match load w50 20 2 with | .err _ _ => true | _ => false) = true := by decide
+theorem w50_spec : designates w50 5 3 = none := by decide
+
 /-- #13 / F-C02-13 (fixed cbb0d05). Object 0: a response value whose child 1 (a header under content.encoding,
     formerly never visited) refers to the header 2. -/
 def w13 : World where
@@ -456,7 +464,7 @@ example : CopyOK wCycle := by
 
 /-- the hypotheses of `load_terminates` hold of it (rank 1 for the two values with a child), the bound is 6 -/
 example : Ranked wCycle (fun o => if o = 1 ∨ o = 3 then 1 else 0) 1 ∧ TextsIn wCycle [key .schema 0, key .schema 1] ∧
-    (match load wCycle 6 0 with | .ok s => s.nnil + s.nempty + s.nswallow == 0 | _ => false) = true := by
+    (match load wCycle 6 0 with | .ok s => s.nnil + s.nempty == 0 | _ => false) = true := by
   refine ⟨⟨?_, ?_⟩, ?_, by decide⟩
   · intro o n _; show (if o = 1 ∨ o = 3 then 1 else 0) ≤ 1; split <;> omega
   · intro o n k hn hr hk
